@@ -105,6 +105,7 @@ func genuinePeer(br *o4h.Bridge, opts o4h.ServerOpts, r *rnd.Stream, srvErr *err
 }
 
 func mustFail(c *mc.Ctx, o outcome, key, what string) {
+	c.Case(what, fmt.Sprint(o.dialErr != nil, len(o.delivered), o.extra))
 	if len(o.panics) > 0 {
 		fail(c, "no-panic", "panic/"+key, "%s: %s", what, o.panics[0])
 		return
@@ -122,6 +123,7 @@ func mustFail(c *mc.Ctx, o outcome, key, what string) {
 }
 
 func mustSucceed(c *mc.Ctx, o outcome, srvErr error, key, what string) {
+	c.Case(what, fmt.Sprint(o.dialErr != nil, srvErr != nil, o.echoOK))
 	if len(o.panics) > 0 {
 		fail(c, "no-panic", "panic/"+key, "%s: %s", what, o.panics[0])
 		return
@@ -170,7 +172,7 @@ func scenarios(cfg *mc.Config, emit func(mc.Scenario)) {
 						cuts = append(cuts, b-1, b, b+1)
 					}
 					cuts = append(cuts, 1, 96+pad+45, 96+pad+45-1)
-					if thorough && pad <= 17 {
+					if pad <= 17 {
 						cuts = nil
 						for k := 1; k < 96+pad+45; k++ {
 							cuts = append(cuts, k)
@@ -236,7 +238,7 @@ func scenarios(cfg *mc.Config, emit func(mc.Scenario)) {
 		c.Observe("done", 1)
 	}})
 	// (c) every single-bit modification of a genuine response
-	for _, pad := range []int{0, 9} {
+	for _, pad := range []int{0, 9, 40} {
 		pad := pad
 		total := 96 + pad
 		step := 1
